@@ -29,6 +29,7 @@ import (
 //   loss  MSE of value X (rank 1) against itself scaled
 //   read  Shape / NElems / At / Sum / Mean / Var on value X (no new value)
 //   rand  RandU / RandN of the shape of value X (new value, not compared)
+//   ctor  a constructor call: Eye(X) for X in 1..24, or Full/Zeros/Ones of the shape of value -X-1
 //   bp    BackPropagate(value X); X depends on no shared tracked tensor
 type GStep struct {
 	Kind  string     `json:"kind"`
@@ -45,6 +46,10 @@ type GProg struct {
 
 type C20Case struct {
 	Shared []prog.Leaf `json:"shared"`
+	// Derived: operations applied by the main goroutine to the shared leaves (and earlier
+	// derived values) before the goroutines start; their results join the shared pool, so
+	// shared tensors are not only fresh constructor results
+	Derived []prog.Node `json:"derived,omitempty"`
 	F      int         `json:"f"`
 	O      int         `json:"o"`
 	W      []float64   `json:"w"`
@@ -65,24 +70,61 @@ func genC20(t *rapid.T) C20Case {
 	c := C20Case{F: rapid.IntRange(1, 3).Draw(t, "f"), O: rapid.IntRange(1, 3).Draw(t, "o")}
 	c.W = prog.DrawValsMode(t, c.O, 0, "small")
 	c.B = prog.DrawValsMode(t, c.O, 1, "small")
+	c20Shapes := append(append([][]int{}, prog.HistShapes...), []int{2, 2, 2, 2}, []int{1, 2, 2, 1, 2}, []int{2, 1, 2, 2})
 	ns := rapid.IntRange(2, 5).Draw(t, "nshared")
 	for i := 0; i < ns; i++ {
-		s := rapid.SampledFrom(prog.HistShapes).Draw(t, "shape")
+		s := rapid.SampledFrom(c20Shapes).Draw(t, "shape")
 		if i == 0 {
 			s = []int{2, c.F}
 		}
 		c.Shared = append(c.Shared, prog.Leaf{Shape: ref.Cp(s), Vals: prog.DrawValsMode(t, ref.Prod(s), i, "small"), Tracked: i > 0 && rapid.Bool().Draw(t, "tracked")})
 	}
+	// derived shared tensors
+	base := &gModel{}
+	for _, l := range c.Shared {
+		base.shapes = append(base.shapes, l.Shape)
+		base.tainted = append(base.tainted, l.Tracked)
+		base.tracked = append(base.tracked, l.Tracked)
+		base.random = append(base.random, false)
+	}
+	nd := rapid.IntRange(0, 4).Draw(t, "nderived")
+	for len(c.Derived) < nd {
+		n, ok := prog.DrawOp(t, base.shapes, seq(len(base.shapes)), prog.AllOps)
+		var rs []int
+		var err error
+		if ok {
+			rs, err = prog.ResultShape(n, base.shapes)
+		}
+		if !ok || err != nil || ref.Prod(rs) > 32 || len(rs) > 5 {
+			n = prog.Node{Op: "sumalong", In: []int{n.In[0]}, I: 0}
+			rs, err = prog.ResultShape(n, base.shapes)
+			if err != nil {
+				n = prog.Node{Op: "sin", In: []int{n.In[0]}}
+				rs, _ = prog.ResultShape(n, base.shapes)
+			}
+		}
+		ta, tr := false, false
+		for _, o := range n.In {
+			ta, tr = ta || base.tainted[o], tr || base.tracked[o]
+		}
+		if prog.IsCmp(n.Op) {
+			tr = false
+		}
+		c.Derived = append(c.Derived, n)
+		base.shapes = append(base.shapes, rs)
+		base.tainted = append(base.tainted, ta)
+		base.tracked = append(base.tracked, tr)
+		base.random = append(base.random, false)
+	}
+	nShared := len(base.shapes)
 	ng := rapid.IntRange(2, 8).Draw(t, "goroutines")
 	for g := 0; g < ng; g++ {
 		var gp GProg
 		m := &gModel{}
-		for _, l := range c.Shared {
-			m.shapes = append(m.shapes, l.Shape)
-			m.tainted = append(m.tainted, l.Tracked)
-			m.tracked = append(m.tracked, l.Tracked)
-			m.random = append(m.random, false)
-		}
+		m.shapes = append(m.shapes, base.shapes...)
+		m.tainted = append(m.tainted, base.tainted...)
+		m.tracked = append(m.tracked, base.tracked...)
+		m.random = append(m.random, base.random...)
 		np := rapid.IntRange(0, 2).Draw(t, "nprivate")
 		for i := 0; i < np; i++ {
 			s := rapid.SampledFrom(prog.HistShapes).Draw(t, "pshape")
@@ -102,7 +144,17 @@ func genC20(t *rapid.T) C20Case {
 				m.tracked = append(m.tracked, tracked)
 				m.random = append(m.random, random)
 			}
-			switch k := rapid.IntRange(0, 11).Draw(t, "kind"); {
+			switch k := rapid.IntRange(0, 12).Draw(t, "kind"); {
+			case k == 12:
+				st.Kind = "ctor"
+				if rapid.Bool().Draw(t, "eye") {
+					st.X = rapid.IntRange(1, 24).Draw(t, "eyen")
+					add([]int{st.X, st.X}, false, false, false)
+				} else {
+					x := rapid.SampledFrom(all).Draw(t, "ctorx")
+					st.X = -x - 1
+					add(m.shapes[x], false, false, false)
+				}
 			case k <= 5:
 				n, ok := prog.DrawOp(t, m.shapes, all, prog.AllOps)
 				var rs []int
@@ -159,7 +211,7 @@ func genC20(t *rapid.T) C20Case {
 				add(m.shapes[x], false, false, true)
 			default:
 				var cand []int
-				for i := len(c.Shared); i < len(m.shapes); i++ {
+				for i := nShared; i < len(m.shapes); i++ {
 					if !m.tainted[i] && m.tracked[i] && !m.random[i] {
 						cand = append(cand, i)
 					}
@@ -194,6 +246,20 @@ func buildWorld(c C20Case) (*c20World, error) {
 			return nil, err
 		}
 		w.shared = append(w.shared, x)
+	}
+	for i, n := range c.Derived {
+		in := make([]tensor.Tensor, len(n.In))
+		for k, o := range n.In {
+			if o < 0 || o >= len(w.shared) {
+				return nil, fmt.Errorf("malformed derived node %d", i)
+			}
+			in[k] = w.shared[o]
+		}
+		y, err := prog.ApplyLib(n, in, nil)
+		if err != nil {
+			return nil, err
+		}
+		w.shared = append(w.shared, y)
 	}
 	fc, err := layers.NewFC(&layers.FCConfig{Inputs: c.F, Outputs: c.O})
 	if err != nil {
@@ -305,6 +371,23 @@ func runG(c C20Case, w *c20World, gp GProg) (res gResult) {
 				y, err = tensor.RandN(x.Shape(), 0, 1, nil)
 			}
 			rnd = true
+		case "ctor":
+			if st.X >= 1 && st.X <= 64 {
+				y, err = tensor.Eye(st.X, nil)
+			} else {
+				x, ok := get(-st.X - 1)
+				if !ok {
+					return
+				}
+				switch si % 3 {
+				case 0:
+					y, err = tensor.Full(x.Shape(), 0.25, nil)
+				case 1:
+					y, err = tensor.Zeros(x.Shape(), nil)
+				default:
+					y, err = tensor.Ones(x.Shape(), lib.Conf(true))
+				}
+			}
 		case "bp":
 			x, ok := get(st.X)
 			if !ok {
@@ -378,26 +461,11 @@ func checkC20(c C20Case) *Failure {
 	}
 	// the history is on disk before it runs: the race detector halts the process
 	logC20Case(c)
-	// sequential twin
-	w, err := buildWorld(c)
-	if err != nil {
-		return nil
-	}
-	want := make([]gResult, len(c.G))
-	for g := range c.G {
-		want[g] = runG(c, w, c.G[g])
-		if want[g].err == "malformed" {
-			return nil
-		}
-		if want[g].err != "" {
-			return failf("sequential execution of goroutine %d's program failed: %s", g, want[g].err)
-		}
-	}
-	sharedBefore, err := snapAll(w.shared)
-	if err != nil {
-		return failf("%v", err)
-	}
+	// The concurrent rounds run first and the sequential twin afterwards: state that the
+	// library initialises lazily on first use is then first touched concurrently.
 	bps := 0
+	var rounds [][]gResult
+	var sharedAfter [][]lib.Snapshot
 	for round := 0; round < 3; round++ {
 		w, err := buildWorld(c)
 		if err != nil {
@@ -416,6 +484,33 @@ func checkC20(c C20Case) *Failure {
 		}
 		close(start)
 		wg.Wait()
+		rounds = append(rounds, got)
+		after, err := snapAll(w.shared)
+		if err != nil {
+			return failf("%v", err)
+		}
+		sharedAfter = append(sharedAfter, after)
+	}
+	// sequential twin
+	w, err := buildWorld(c)
+	if err != nil {
+		return nil
+	}
+	sharedBefore, err := snapAll(w.shared)
+	if err != nil {
+		return failf("%v", err)
+	}
+	want := make([]gResult, len(c.G))
+	for g := range c.G {
+		want[g] = runG(c, w, c.G[g])
+		if want[g].err == "malformed" {
+			return nil
+		}
+		if want[g].err != "" {
+			return failf("sequential execution of goroutine %d's program failed: %s", g, want[g].err)
+		}
+	}
+	for round, got := range rounds {
 		for g := range c.G {
 			if got[g].err != "" {
 				return failf("round %d: goroutine %d failed although the same program succeeds sequentially: %s", round, g, got[g].err)
@@ -434,12 +529,8 @@ func checkC20(c C20Case) *Failure {
 				}
 			}
 		}
-		after, err := snapAll(w.shared)
-		if err != nil {
-			return failf("%v", err)
-		}
-		for i := range after {
-			if !after[i].Equal(sharedBefore[i]) {
+		for i := range sharedAfter[round] {
+			if !sharedAfter[round][i].Equal(sharedBefore[i]) {
 				return failf("round %d: shared tensor %d changed (value or gradient)", round, i)
 			}
 		}
@@ -489,6 +580,191 @@ func TestC20_concurrent(t *testing.T) {
 		c := genC20(rt)
 		if f := guard(func() *Failure { return checkC20(c) }); f != nil {
 			fail(rt, "C20/concurrent", c, f)
+		}
+	})
+}
+
+/* ---------- same operation on one shared tensor from several goroutines ---------- */
+
+// C20Pair: a shared tensor S - a leaf, or the result of Prov applied to the leaves - on which
+// 2-4 goroutines perform the same operation Test concurrently (S is an operand of Test; the
+// other operands are leaves). Covers every (provenance of S) x (operation on S) combination
+// with maximal contention, which the free-form programs reach only by coincidence.
+type C20Pair struct {
+	Leaves []prog.Leaf `json:"leaves"`
+	Prov   *prog.Node  `json:"prov,omitempty"`
+	Test   prog.Node   `json:"test"`
+	N      int         `json:"n"`
+}
+
+func init() { register("C20/pairs", checkC20Pair) }
+
+func genC20Pair(t *rapid.T) C20Pair {
+	shapes := append(append([][]int{}, prog.HistShapes...), []int{2, 2, 2, 2}, []int{1, 2, 2, 1, 2}, []int{2, 1, 2, 2}, []int{2, 1, 1, 2, 1, 2})
+	var c C20Pair
+	nl := rapid.IntRange(1, 3).Draw(t, "nleaves")
+	var sh [][]int
+	for i := 0; i < nl; i++ {
+		s := rapid.SampledFrom(shapes).Draw(t, "shape")
+		if i > 0 && rapid.Bool().Draw(t, "sameshape") {
+			s = sh[0]
+		}
+		c.Leaves = append(c.Leaves, prog.Leaf{Shape: ref.Cp(s), Vals: prog.DrawValsMode(t, ref.Prod(s), i, "small"), Tracked: rapid.Bool().Draw(t, "tracked")})
+		sh = append(sh, s)
+	}
+	sid := 0
+	if rapid.IntRange(0, 3).Draw(t, "derived") > 0 {
+		n, ok := prog.DrawOp(t, sh, seq(len(sh)), prog.AllOps)
+		if ok {
+			if rs, err := prog.ResultShape(n, sh); err == nil && ref.Prod(rs) <= 64 && len(rs) <= 6 {
+				c.Prov = &n
+				sh = append(sh, rs)
+				sid = len(sh) - 1
+			}
+		}
+	}
+	// the test operation must use S; redraw a few times, else fall back to a unary op on S
+	c.Test = prog.Node{Op: "sin", In: []int{sid}}
+	for try := 0; try < 4; try++ {
+		n, ok := prog.DrawOp(t, sh, append([]int{sid, sid, sid}, seq(len(sh))...), prog.AllOps)
+		if !ok {
+			continue
+		}
+		uses := false
+		for _, o := range n.In {
+			uses = uses || o == sid
+		}
+		if !uses {
+			continue
+		}
+		if rs, err := prog.ResultShape(n, sh); err == nil && ref.Prod(rs) <= 256 {
+			c.Test = n
+			break
+		}
+	}
+	c.N = rapid.IntRange(2, 4).Draw(t, "goroutines")
+	return c
+}
+
+func checkC20Pair(c C20Pair) *Failure {
+	if len(c.Leaves) == 0 || len(c.Leaves) > 4 || c.N < 1 || c.N > 8 {
+		return nil
+	}
+	var pool []tensor.Tensor
+	var sh [][]int
+	for _, l := range c.Leaves {
+		if !ref.ValidDims(l.Shape) || len(l.Vals) != ref.Prod(l.Shape) {
+			return nil
+		}
+		x, err := lib.New(l.Shape, l.Vals, l.Tracked)
+		if err != nil {
+			return nil
+		}
+		pool = append(pool, x)
+		sh = append(sh, l.Shape)
+	}
+	if c.Prov != nil {
+		rs, err := prog.ResultShape(*c.Prov, sh)
+		if err != nil {
+			return nil
+		}
+		in := make([]tensor.Tensor, len(c.Prov.In))
+		for k, o := range c.Prov.In {
+			in[k] = pool[o]
+		}
+		y, err := prog.ApplyLib(*c.Prov, in, nil)
+		if err != nil {
+			return failf("%s rejected valid operands: %v", c.Prov.Op, err)
+		}
+		pool = append(pool, y)
+		sh = append(sh, rs)
+	}
+	for _, o := range c.Test.In {
+		if o < 0 || o >= len(pool) {
+			return nil
+		}
+	}
+	if _, err := prog.ResultShape(c.Test, sh); err != nil {
+		return nil
+	}
+	logC20Case(C20Case{}) // keeps the case file in step; the pair itself is logged below
+	if dir := os.Getenv("VERIF_CASEDIR"); dir != "" && c20CaseFile != nil {
+		b, _ := json.Marshal(c)
+		c20CaseFile.Write(append(b, '\n'))
+		c20CaseFile.Sync()
+	}
+	in := make([]tensor.Tensor, len(c.Test.In))
+	for k, o := range c.Test.In {
+		in[k] = pool[o]
+	}
+	got := make([][]lib.Snapshot, c.N)
+	errs := make([]error, c.N)
+	var wg sync.WaitGroup
+	start := make(chan struct{})
+	for g := 0; g < c.N; g++ {
+		wg.Add(1)
+		go func(g int) {
+			defer wg.Done()
+			defer func() {
+				if r := recover(); r != nil {
+					errs[g] = fmt.Errorf("panic: %v", r)
+				}
+			}()
+			<-start
+			for rep := 0; rep < 2; rep++ {
+				y, err := prog.ApplyLib(c.Test, in, nil)
+				if err != nil {
+					errs[g] = err
+					return
+				}
+				s, err := lib.Snap(y)
+				if err != nil {
+					errs[g] = err
+					return
+				}
+				got[g] = append(got[g], s)
+				runtime.Gosched()
+			}
+		}(g)
+	}
+	close(start)
+	wg.Wait()
+	y, err := prog.ApplyLib(c.Test, in, nil)
+	if err != nil {
+		return failf("%s rejected valid operands: %v", c.Test.Op, err)
+	}
+	want, err := lib.Snap(y)
+	if err != nil {
+		return failf("%v", err)
+	}
+	for g := 0; g < c.N; g++ {
+		if errs[g] != nil {
+			return failf("goroutine %d: %s failed concurrently although it succeeds sequentially: %v", g, c.Test.Op, errs[g])
+		}
+		for _, s := range got[g] {
+			if !s.Equal(want) {
+				return failf("goroutine %d: concurrent %s differs from the sequential result", g, c.Test.Op)
+			}
+		}
+	}
+	evid.Eval()
+	prov := "leaf"
+	if c.Prov != nil {
+		prov = c.Prov.Op
+	}
+	evid.Class("C20.pair_test_op=" + c.Test.Op)
+	evid.Class("C20.pair_provenance=" + prov)
+	if c.Prov != nil && c.N >= 3 {
+		evid.NonTrivial(c)
+	}
+	return nil
+}
+
+func TestC20_pairs(t *testing.T) {
+	run(t, 6000, func(rt *rapid.T) {
+		c := genC20Pair(rt)
+		if f := guard(func() *Failure { return checkC20Pair(c) }); f != nil {
+			fail(rt, "C20/pairs", c, f)
 		}
 	})
 }
